@@ -167,12 +167,30 @@ func TestSemantics(t *testing.T) {
 	// a pod that comes and goes while the cache is behind is still reported (add, then delete)
 	pods.Create(ctx, &corev1.Pod{ObjectMeta: metav1.ObjectMeta{Name: "g"}}, metav1.CreateOptions{})
 	pods.Delete(ctx, "g", metav1.DeleteOptions{})
-	if g := c.GhostPods("ns"); len(g) != 1 || g[0] != "g" {
-		t.Fatalf("ghost pods: %v", g)
+	if g := c.PendingPodEvents("ns"); len(g) != 1 || g[0] != "g" {
+		t.Fatalf("pending pod events: %v", g)
 	}
-	if !c.RefreshPod("ns", "g", true) || len(c.GhostPods("ns")) != 0 || c.RefreshPod("ns", "g", true) {
-		t.Fatalf("ghost delivery")
+	if !c.RefreshPod("ns", "g", true) || len(c.PendingPodEvents("ns")) != 0 || c.RefreshPod("ns", "g", true) {
+		t.Fatalf("delivery of add+delete for a pod the cache never held")
 	}
+	// two writes that cancel out (adopt, release) are still two update events: the controller's
+	// handler wakes the set although first and last state look alike
+	pods.Create(ctx, &corev1.Pod{ObjectMeta: metav1.ObjectMeta{Name: "web-7", Labels: map[string]string{"app": "web"}}}, metav1.CreateOptions{})
+	c.RefreshPod("ns", "web-7", true)
+	c.DrainQueue()
+	w7 := c.Pod("ns", "web-7")
+	ad := `{"metadata":{"uid":"` + string(w7.UID) + `","ownerReferences":[{"apiVersion":"apps.pingcap.com/v1","kind":"StatefulSet","name":"web","uid":"` + string(c.Set("ns", "web").UID) + `","controller":true}]}}`
+	if _, err := pods.Patch(ctx, "web-7", types.StrategicMergePatchType, []byte(ad), metav1.PatchOptions{}); err != nil {
+		t.Fatal(err)
+	}
+	rl := `{"metadata":{"uid":"` + string(w7.UID) + `","ownerReferences":[{"$patch":"delete","uid":"` + string(c.Set("ns", "web").UID) + `"}]}}`
+	if _, err := pods.Patch(ctx, "web-7", types.StrategicMergePatchType, []byte(rl), metav1.PatchOptions{}); err != nil {
+		t.Fatal(err)
+	}
+	if !c.RefreshPod("ns", "web-7", true) || c.QueueLen() != 1 {
+		t.Fatalf("adopt+release unseen by the cache must still wake the set (queue %d)", c.QueueLen())
+	}
+	c.DrainQueue()
 	// clone is deep and independent
 	n := c.Clone()
 	defer n.Close()
